@@ -88,6 +88,9 @@ func assign(dst reflect.Value, v model.V, path string, depth int) error {
 	if depth > 300 {
 		return nil
 	}
+	if f, ok := poolAssign[dst.Type()]; ok {
+		return f(dst, v)
+	}
 	if v.K == model.VNull {
 		// null assigns the zero value wherever it is accepted at all (whether a
 		// null is accepted for a container-typed struct field is left open by the
@@ -297,6 +300,9 @@ func Prefill(v reflect.Value) {
 func prefill(v reflect.Value, depth int) {
 	if depth > 20 || v.Kind() != reflect.Struct {
 		return
+	}
+	if _, ok := poolAssign[v.Type()]; ok {
+		return // custom unfolder: not field-wise
 	}
 	for i := 0; i < v.NumField(); i++ {
 		f := v.Field(i)
